@@ -11,6 +11,7 @@ HERE = os.path.dirname(os.path.abspath(__file__))
 VERIF = os.path.dirname(HERE)
 LEAN = os.path.join(VERIF, 'lean')
 REPO = os.environ.get('VERIF_REPO', '/repo')
+REPLAYS = os.environ.get('VERIF_REPLAY_DIR', 'replays')      # relative to /verif
 ALLOWED_AXIOMS = {'propext', 'Classical.choice', 'Quot.sound'}
 FORBIDDEN = re.compile(r'\bsorry\b|\badmit\b|^axiom\s|native_decide|bv_decide|implemented_by|\bunsafe\s|maxHeartbeats\s+0')
 
@@ -125,6 +126,70 @@ def repo_fingerprint():
     return h.hexdigest()[:16]
 
 
+# ---- runtime guards -------------------------------------------------------------------------
+
+def install_gc_guard():
+    """CPython 3.12 runs `Thread._set_tstate_lock` / `Thread._stop` under the non-reentrant
+    `threading._shutdown_locks_lock`. If the cyclic GC fires inside that window and finalises an
+    abandoned `lazy_parallel_map` generator, its `with Executor` exit joins threads, needs the same
+    lock, and the interpreter deadlocks (seen about once in 5 runs of 7000 pipelines). That is a property
+    of the interpreter's thread bookkeeping (the lock is gone in 3.13), not of any property decided
+    here. The harness therefore switches the automatic collector off and collects explicitly at
+    `gc_point()`s: top-level points of the main thread between two cases, where no lock is held."""
+    import gc
+    gc.collect()
+    gc.freeze()
+    gc.disable()
+
+
+_gc_n = [0]
+_gc_pid = [0]
+
+
+def gc_point(every=1):
+    import gc
+    import threading
+    if gc.isenabled() or threading.current_thread() is not threading.main_thread():
+        return
+    _gc_n[0] += 1
+    if _gc_n[0] % every == 0:
+        gc.collect()
+        if _gc_pid[0] != os.getpid() or _gc_n[0] % 64 == 0:
+            # what survived a full collection here (imported modules, the harness's own tables) is
+            # moved out of the collector's sight, so that the next collections cost microseconds
+            _gc_pid[0] = os.getpid()
+            gc.freeze()
+
+
+def install_watchdog(seconds, prop):
+    """a check that does not come back is an infrastructure failure (exit 2), never a verdict"""
+    import faulthandler
+    import threading
+
+    def fire():
+        sys.stderr.write(f'INFRASTRUCTURE-ERROR property={prop}: no result after {seconds} s\n')
+        try:
+            faulthandler.dump_traceback(file=sys.stderr)
+        except Exception:  # noqa
+            pass
+        sys.stderr.flush()
+        try:
+            import psutil
+            for c in psutil.Process().children(recursive=True):
+                try:
+                    c.kill()
+                except Exception:  # noqa
+                    pass
+        except Exception:  # noqa
+            pass
+        os._exit(2)
+
+    t = threading.Timer(seconds, fire)
+    t.daemon = True
+    t.start()
+    return t
+
+
 # ---- known findings ------------------------------------------------------------------------
 
 def load_known():
@@ -149,17 +214,17 @@ class Report:
         self.coverage = {}
         self.assumptions = []
         self.replay_n = 0
-        d = os.path.join(VERIF, 'replays')
+        d = os.path.join(VERIF, REPLAYS)
         if os.path.isdir(d):
             for f in os.listdir(d):
                 if f.startswith(f'{prop}-{tier}-'):
                     os.unlink(os.path.join(d, f))
 
     def replay_path(self):
-        d = os.path.join(VERIF, 'replays')
+        d = os.path.join(VERIF, REPLAYS)
         os.makedirs(d, exist_ok=True)
         self.replay_n += 1
-        return os.path.join('replays', f'{self.prop}-{self.tier}-{self.seed}-{self.replay_n}.json')
+        return os.path.join(REPLAYS, f'{self.prop}-{self.tier}-{self.seed}-{self.replay_n}.json')
 
     def violation(self, replay_obj, no_input=False):
         rel = self.replay_path()
